@@ -2,5 +2,5 @@
 
 package x25519
 
-// c14Backend: curve_noasm.go is compiled, the ladder steps are the *Generic routines.
-func c14Backend() string { return "generic" }
+// curve_noasm.go is compiled: the ladder steps are the *Generic routines.
+func init() { C14ReadBackend = func() string { return "generic" } }
